@@ -927,6 +927,9 @@ func c05Corpus() []*c05Pkg {
 			{kind: "fn", name: "store", params: []c05Param{par("a", sc('i')), par("b", sc('s'))}},
 			{kind: "fn", name: "store", ret: vec(sc('d'))},
 		}}}},
+		// parameters whose names differ by the case of the first letter only
+		one("A", c05Action{kind: "fn", name: "blend", params: []c05Param{par("a", sc('i')), par("A", sc('i'))}, ret: sc('i')}),
+		one("A", c05Action{kind: "fn", name: "mix", params: []c05Param{par("k", sc('s')), par("K", sc('I')), par("kk", sc('i'))}}),
 		// a returned value without content
 		one("A", c05Action{kind: "fn", name: "run", params: []c05Param{par("a", sc('C'))}, ret: tup()}),
 		// a list or a map of elements without content: the loop variable was unused
